@@ -317,7 +317,12 @@ def parse_terminator(line) -> Term:
                     break
             i -= 1
         func = call[:i].strip()
-        args = [parse_operand(a) for a in split_top(call[i + 1:-1])] if call[i + 1:-1].strip() else []
+        def _arg(a):
+            try:
+                return parse_operand(a)
+            except Unsupported:
+                return Operand("const", const=(a.strip(), "opaque"))  # e.g. a function item passed by name
+        args = [_arg(a) for a in split_top(call[i + 1:-1])] if call[i + 1:-1].strip() else []
         targets = parse_targets(tg) if tg.startswith("[") else {"unwind": tg[len("unwind"):].strip()}
         return Term("call", {"dst": parse_place(dst) if dst else None, "func": func, "args": args, "targets": targets}, t)
     raise Unsupported(f"terminator: {t!r}")
